@@ -254,6 +254,72 @@ func Sleep(d time.Duration) {
 	PostReal(k, g)
 }
 
+// ---- time.AfterFunc ----
+
+type adopted struct {
+	seq uint64
+	g   *G
+}
+
+// AfterFunc is time.AfterFunc for the program (rule R8). The real timer (on
+// the bubble's fake clock) only announces that it fired; the kernel then
+// starts f as a simulated goroutine at that instant, so the callback is
+// scheduled, killed and censused like every goroutine of the program. Stop and
+// Reset of the returned timer are the real ones.
+//
+//go:norace
+func AfterFunc(d time.Duration, f func()) *time.Timer {
+	k := K
+	if k == nil || k.killed {
+		Orphans++
+		return time.AfterFunc(d, func() {})
+	}
+	g := Cur()
+	if g != nil {
+		trapG(k, g, opYield, true)
+	}
+	k.afSeq++
+	seq := k.afSeq
+	child := &G{fn: f, Name: "time.AfterFunc"}
+	raceRelease(&child.token)
+	return time.AfterFunc(d, func() { k.timerFired(seq, child) })
+}
+
+// timerFired runs on the runtime's timer goroutine (inside the bubble, no baton).
+//
+//go:norace
+func (k *Kernel) timerFired(seq uint64, child *G) {
+	if k.killed {
+		return
+	}
+	raceDisable()
+	k.adoptMu.Lock()
+	// a timer that is Reset fires again: every firing is a new goroutine
+	k.adopt = append(k.adopt, adopted{seq, &G{fn: func() { raceAcquire(&child.token); child.fn() }, Name: child.Name}})
+	k.adoptMu.Unlock()
+	select {
+	case k.timerWake <- struct{}{}:
+	default:
+	}
+	raceEnable()
+}
+
+// startAdopted starts the callbacks of the timers that fired since the last
+// look, in the order in which the timers were made (kernel context).
+func (k *Kernel) startAdopted() {
+	k.adoptMu.Lock()
+	list := k.adopt
+	k.adopt = nil
+	k.adoptMu.Unlock()
+	if len(list) == 0 {
+		return
+	}
+	sort.SliceStable(list, func(i, j int) bool { return list[i].seq < list[j].seq })
+	for _, a := range list {
+		k.startG(a.g, false)
+	}
+}
+
 // ---- map iteration order ----
 
 type keyed[K comparable] struct {
